@@ -1036,6 +1036,7 @@ class FnTranslator:
         self.lock_held = []
         self.svd_vars = {}
         self.eigh_vars = {}
+        self.lazy_eig = {}
 
     # -- helpers -----------------------------------------------------------------------
     def rule(self, r):
@@ -1491,6 +1492,12 @@ class FnTranslator:
             shp = self.prog.options['dyn_locals'][name]
             t = ('eig', t[1], shp[0], shp[1])          # bounded stand-in: a dynamic-size local (reference) with the size the spec binds it to
             self.rule('dynamic-size Eigen local %s declared with the size the spec binds it to (bounded stand-in)' % name)
+        if t[0] == 'opaque' and init is not None and 'Eigen::' in node_type(d) + self.desugar(d) and self.is_eigen_node(init):
+            # `auto x = <Eigen expression>`: x is an expression template that refers to its operands; every use of x evaluates the expression
+            # at that point (Eigen's lazy evaluation), so x is kept as an alias of the initialiser
+            self.lazy_eig[d['id']] = init
+            self.rule('auto local holding an Eigen expression template -> alias of its initialiser, evaluated at each use (lazy evaluation)')
+            return []
         if t[0] == 'lockguard':
             m = self.lvalue(self.strip(self.inner(self.strip(init))[0]))
             self.rule('std::lock_guard -> ghost held flag for the rest of the scope')
@@ -2846,6 +2853,8 @@ class FnTranslator:
             qa = [a for a in self.inner(n) if self.strip(a)['kind'] != 'CXXDefaultArgExpr']
             if len(qa) == 1 and self.qkind(qa[0]) == 'quat':
                 return self.quat_to_rot(self.eig(qa[0]))
+        if k == 'DeclRefExpr' and n.get('referencedDecl', {}).get('id') in self.lazy_eig:
+            return self.eig(self.lazy_eig[n['referencedDecl']['id']])
         if k in ('DeclRefExpr', 'MemberExpr'):
             lv = self.lvalue(n)
             if t[0] != 'eig' and isinstance(lv[-1], tuple) and lv[-1][0] == 'eig':
@@ -3278,8 +3287,13 @@ class FnTranslator:
         # template-argument forms: block<R,C>(i,j), head<N>(), segment<N>(i), topLeftCorner<R,C>() ...
         q = node_type(n)
         m = re.search(r'Block<.*?, (-?\d+), (-?\d+), (true|false)>', q)
+        args = [x for x in args if self.strip(x)['kind'] != 'CXXDefaultArgExpr']      # head<N>(n = N)
         idx = [self.const_index(x) for x in args]
         R, C = (int(m.group(1)), int(m.group(2))) if m else (-1, -1)
+        if not m and name in ('head', 'tail', 'segment'):
+            mv = re.search(r'VectorBlock<.*,\s*(-?\d+)>\s*$', q.strip())       # head<N>() / tail<N>() / segment<N>(i) on a vector
+            if mv and int(mv.group(1)) >= 0:
+                R, C = (int(mv.group(1)), 1) if a.cols == 1 else (1, int(mv.group(1)))
         if R < 0 or C < 0:
             # run-time sized block whose size arguments are compile-time constants: head(n), tail(n), segment(i,n), block(i,j,r,c)
             vec_col = a.cols == 1
